@@ -55,6 +55,7 @@ M0(c) ==
     readyOut |-> {},            \* output ids whose node became ready while still waiting (computed graph)
     returned |-> 0,
     cancelled|-> FALSE,         \* the caller cancelled
+    evalFailed |-> FALSE,       \* some expression could not be evaluated at run time
     errKinds |-> {} ]
 
 Init == ci = 1 /\ l = 1 /\ m = M0(1) /\ TLCSet(1, FALSE)
@@ -120,10 +121,10 @@ OnEval(mm, e) ==
       obs  == Leaves(e.data)
       isStage == \E s \in StepIds(WF) : \E st \in StagesOf(KindOf(WF, s)) : node = StageNode(s, st)
       isOut == \E id \in OutputIds(WF) : node = OutputNode(id)
-      mm1  == [mm EXCEPT !.ev = [node |-> node, ok |-> e.ok, obs |-> obs]]
+      mm1  == [mm EXCEPT !.ev = [node |-> node, ok |-> e.ok, obs |-> obs], !.evalFailed = @ \/ ~e.ok]
       cReady == IF KnownNode(node) /\ (node \notin mm.popped \/ mm.g.st[node] # "W")
                   THEN {<<"C02", "evaluated-before-dependencies-resolved", node>>} ELSE {}
-      cOk == IF ~e.ok THEN {<<"C07", "expression-evaluation-failed-at-run-time", node>>} ELSE {}
+      cOk == {}   \* a failing evaluation is legal; it must surface as a returned error (checked at Return / Final)
       checks ==
         IF ~e.ok \/ ~KnownNode(node) THEN {}
         ELSE IF isStage THEN
@@ -165,7 +166,7 @@ OnErrPush(mm, e) ==
       c2 == IF e.kind = "nooutputs" /\ \E id \in OutputIds(WF) : mm.g.st[OutputNode(id)] # "U"
               THEN {<<"C03", "no-more-outputs-reported-while-an-output-is-still-possible", "">>} ELSE {}
       c3 == IF e.kind = "nosteps" /\ mm.slots # {}
-              THEN {<<"C09", "no-more-steps-reported-while-a-step-has-unread-input", "">>} ELSE {}
+              THEN {<<"C09", "no-more-steps-reported-while-a-step-has-unread-input", (CHOOSE x \in mm.slots : TRUE)[1] \o "." \o (CHOOSE x \in mm.slots : TRUE)[2]>>} ELSE {}
       c4 == IF e.kind = "nosteps" /\ (mm.execLive # {} \/ mm.plugLive # {})
               THEN {<<"C09", "no-more-steps-reported-while-a-plugin-is-executing", "">>} ELSE {}
       c5 == IF e.kind \in {"resolvestage", "resolveoutput", "getstage", "getoutput"}
@@ -211,7 +212,8 @@ OnReturn(mm, e) ==
               THEN {<<"C03", "error-returned-although-an-output-was-ready", "">>} ELSE {}
       c8 == IF mm.plugLive # {} THEN {<<"C06", "plugin-still-executing-at-return", "">>} ELSE {}
       c9 == IF e.iserr /\ e.bug THEN {<<"C08", "internal-bug-error-returned", "">>} ELSE {}
-  IN  VS([mm EXCEPT !.returned = @ + 1], c1 \cup c2 \cup c3 \cup c4 \cup c5 \cup c6 \cup c7 \cup c8 \cup c9)
+      c10 == IF mm.evalFailed /\ ~e.iserr THEN {<<"C07", "evaluation-failure-did-not-surface-as-error", e.id>>} ELSE {}
+  IN  VS([mm EXCEPT !.returned = @ + 1], c1 \cup c2 \cup c3 \cup c4 \cup c5 \cup c6 \cup c7 \cup c8 \cup c9 \cup c10)
 
 Dispatch(mm, e) ==
   CASE e.ev = "HEnter" /\ e.h = "K" -> OnKick(mm, e)
@@ -241,7 +243,8 @@ Dispatch(mm, e) ==
 
 \* end-of-case rules
 Final(mm) ==
-  VS(mm, (IF mm.returned = 0 /\ ~Case.noreturn THEN {<<"C01", "run-did-not-return", "">>} ELSE {}))
+  VS(mm, (IF mm.returned = 0 /\ ~Case.noreturn THEN {<<"C01", "run-did-not-return", "">>} ELSE {})
+         \cup (IF mm.returned = 0 /\ mm.evalFailed THEN {<<"C07", "no-result-after-evaluation-failure", "">>} ELSE {}))
 
 StepEv == /\ l <= Len(Trace)
           /\ m' = Dispatch(m, Trace[l])
